@@ -102,7 +102,6 @@ func wReset(nPkg, nDeps, nReg int) {
 // wResetBuild: a second build of the same world (C13): counters and the target directory start
 // afresh, what the world answers stays.
 func wResetBuild(target string) {
-	envMkdir(target, 0755, 100)
 	wFetchCount = map[int]int{}
 	wAnalysed = map[wFinderKey]int{}
 	wRegVersionsCalls = map[int]int{}
